@@ -296,3 +296,13 @@ func sameEdgeSet(what string, got, want []*tree.Edge) error {
 	}
 	return nil
 }
+
+// Read returns the reference reading of the tree's Newick text.
+func Read(t *tree.Tree) (*ref.Node, error) {
+	text := t.Newick()
+	m, err := ref.Parse(text)
+	if err != nil {
+		return nil, fmt.Errorf("reference reader rejects %s: %v", clip(text), err)
+	}
+	return m, nil
+}
